@@ -42,7 +42,9 @@ def plan(pid, tier):
     if pid == "C09":
         return [hx_leg("SA", props=["C09"], **(dict(L=3, D=8) if q else dict(L=5, D=10))), hx_leg("SB", props=["C09"], **(dict(D=6) if q else dict(D=8))), hx_leg("SP", props=["C09"])]
     if pid == "C10":
-        return [hx_leg("SF", props=["C10", "C01", "C02", "C04", "C06", "C09", "C12"]), hx_leg("SE", props=["C10", "C01", "C04", "C12"])] + ([] if q else [hx_leg("LIMIT", depth=2), hx_leg("SAN", profile="rel", props=["C10", "C01", "C02", "C04"], san="asan"), hx_leg("SF", props=["C10", "C01", "C04"], san="miri", miri_depth=2)])
+        # the same fault / overflow histories on the events build: the logs are part of "every other property still holds"
+        return [hx_leg("SF", props=["C10", "C01", "C02", "C04", "C06", "C09", "C12"]), hx_leg("SE", props=["C10", "C01", "C04", "C12"]),
+                hx_leg("SF", features=("events",), props=["C10", "C17", "C01", "C04", "C12"]), hx_leg("SE", features=("events",), props=["C10", "C17", "C01", "C04", "C12"])] + ([] if q else [hx_leg("LIMIT", depth=2), hx_leg("SAN", profile="rel", props=["C10", "C01", "C02", "C04"], san="asan"), hx_leg("SF", props=["C10", "C01", "C04"], san="miri", miri_depth=2)])
     if pid == "C12":
         return [hx_leg("SA", props=["C12"]), hx_leg("SB", props=["C12"]), hx_leg("LIMIT", depth=2 if q else 4)]
     if pid == "C13":
@@ -50,7 +52,8 @@ def plan(pid, tier):
                 hx_leg("SP", props=["C13", "C01", "C02", "C06", "C09", "C12"], drop_world=True, max_clones=1, key_kinds=[0, 3], vias=["World"])] + \
                ([] if q else [hx_leg("SD", props=["C13", "C01", "C02"], san="miri", miri_depth=2)])
     if pid == "C17":
-        return [hx_leg("SG", features=("events",), props=["C17"])]
+        # S-E / S-F on the events build: a destroy that panics (generation overflow, panicking Drop) must not be logged
+        return [hx_leg("SG", features=("events",), props=["C17"]), hx_leg("SE", features=("events",), props=["C17", "C10"]), hx_leg("SF", features=("events",), props=["C17", "C10"])]
     raise KeyError(pid)
 
 
